@@ -616,6 +616,12 @@ pub fn replay_c06(r: &Value) {
                 run.bus.faults.push((n, parse_fault(job["fault2"].as_str().unwrap())));
                 while run.bus.tx_count <= n && !run.done() && run.now < t + 10_000_000 { run.step(); }
             }
+            "cut" => {
+                let k = job["k"].as_u64().unwrap() as usize;
+                let m = job["m"].as_u64().unwrap() as usize;
+                for j in 0..m { run.bus.faults.push((first_tx + k + j, Fault::Drop)); }
+                while run.bus.tx_count <= first_tx + k + m - 1 && !run.done() { run.step(); }
+            }
             "garble" => {
                 let k = job["k"].as_u64().unwrap() as usize;
                 for j in 0..3 { run.bus.faults.push((first_tx + k + j, Fault::Garble)); }
@@ -954,9 +960,12 @@ fn c06_finish(run: &mut W3Run, sc: &Scenario, t_fault: i64, what: &str, tally: &
             *tally.outcomes.lock().unwrap().entry(format!("recovered after {}", what.split(' ').next().unwrap_or(""))).or_insert(0) += 1;
         }
         Err((sig, detail)) => {
-            *tally.outcomes.lock().unwrap().entry(sig.clone()).or_insert(0) += 1;
+            *tally.outcomes.lock().unwrap().entry(format!("{sig} [{} / {} / {} phases]", what.split(' ').next().unwrap_or(""), if sc.deaf { "deaf PHY" } else { "hearing PHY" }, if sc.phases.iter().all(|p| *p == sc.phases[0]) { "equal" } else { "staggered" })).or_insert(0) += 1;
             let tail: Vec<String> = run.log.iter().rev().take(10).rev().map(|(a, f, s, _)| format!("{}us #{} {}", s / rate, a, f.as_ref().map(|f| f.short()).unwrap_or("??".into()))).collect();
             let views: Vec<String> = (0..sc.addrs.len()).map(|i| format!("#{}:{:?}", sc.addrs[i], run.view(i))).collect();
+            // the signature names the kind of disturbance, the PHY model and the kind of poll schedule
+            let kind = job["kind"].as_str().unwrap_or("x").replace('+', "_then_");
+            let sig = format!("{sig}.after_{kind}.{}.{}", if sc.deaf { "deaf_phy" } else { "hearing_phy" }, if sc.phases.iter().all(|p| *p == sc.phases[0]) { "equal_phases" } else { "staggered_phases" });
             ctx().violation(
                 sig,
                 format!("{detail} [after {what}; stations {:?} HSA {} slot {} divs {:?} phases {:?} PHY {}; now={}us horizon={}us; last telegrams: {:?}; views: {:?}]", sc.addrs, sc.hsa, sc.slot_bits, sc.divs, sc.phases, if sc.deaf { "deaf while transmitting" } else { "hears collisions" }, run.now, run.horizon_us, tail, views),
@@ -1102,6 +1111,23 @@ pub fn run_c06(tier: Tier) -> ! {
                 let t_fault = run.now;
                 ctx().witness("c06_two_fault_episode");
                 c06_finish(&mut run, sc, t_fault, &format!("{:?} of telegram #{} and {:?} of the telegram {} later", f1, n - first_tx, f2, d), &tally, json!({"kind":"fault2","n_rel": n - first_tx, "fault": format!("{:?}", f1), "d": d, "fault2": format!("{:?}", f2)}));
+            });
+        }
+        // the bus is cut for a while: M consecutive telegrams reach nobody (long enough for every station to
+        // time out, claim a token and drop everybody else), then the bus is whole again — the lone token
+        // holders have to find each other
+        for m in tier.pick(vec![40usize], vec![25, 40, 80]) {
+            (0..n_tx).into_par_iter().step_by(tier.pick(7, 3)).for_each(|k| {
+                let mut run = base.clone();
+                for j in 0..m {
+                    run.bus.faults.push((first_tx + k + j, Fault::Drop));
+                }
+                while run.bus.tx_count <= first_tx + k + m - 1 && !run.done() && run.now < t_start + window_us * 4 {
+                    run.step();
+                }
+                let t_fault = run.now;
+                ctx().witness("c06_bus_cut_episode");
+                c06_finish(&mut run, sc, t_fault, &format!("bus cut for {m} telegrams from #{k}"), &tally, json!({"kind":"cut","k": k, "m": m}));
             });
         }
         // corruption window: three consecutive telegrams garbled
